@@ -22,6 +22,23 @@ package memory
 //@   option safety slice,index
 //@   ensures @window err == nil ==> 0 <= from && from <= to && to <= len(models) && len(res) == to - from && to == min(len(models), from + pageSize) && pageSize > 0
 //@   ensures @token err == nil ==> (token == "" <==> to == len(models)) && (token != "" ==> token == itoa(to))
+//@   ensures @cutFromSorted err == nil ==> sortedLast
+//@   monitor order
+//@     ghost sortedLast = false
+//@     after call sort.SliceStable | sort.Slice args x, less : sortedLast = closureOf(less, "ReadAuthorizationModels$1")
+//@     after call builtin.append : sortedLast = false
+
+// the documented orders: models newest first (descending id), stores by ascending id — the comparators handed to the
+// sort are exactly these, the page is cut from the sorted list
+//@ func (*MemoryBackend).ReadAuthorizationModels$1(i, j) (r)
+//@   property C14
+//@   option nosafety
+//@   ensures @newestFirst r <==> (deref(models)[i].GetId() > deref(models)[j].GetId())
+
+//@ func (*MemoryBackend).ListStores$1(i, j) (r)
+//@   property C14
+//@   option nosafety
+//@   ensures @byAscendingID r <==> (deref(stores)[i].GetId() < deref(stores)[j].GetId())
 
 //@ func (*MemoryBackend).ListStores(s, ctx, options) (res, token, err)
 //@   property C14 C19
@@ -33,7 +50,7 @@ package memory
 //@   ensures @cutFromSorted err == nil && len(res) > 0 ==> sortedLast
 //@   monitor order
 //@     ghost sortedLast = false
-//@     after call sort.SliceStable | sort.Slice : sortedLast = true
+//@     after call sort.SliceStable | sort.Slice args x, less : sortedLast = closureOf(less, "ListStores$1")
 //@     after call builtin.append : sortedLast = false
 
 // following tokens visits every index exactly once: pure arithmetic over the window contract above
